@@ -15,6 +15,7 @@ import (
 	"testing"
 	"time"
 
+	"github.com/quickfixgo/quickfix"
 	"github.com/quickfixgo/quickfix/config"
 	"pgregory.net/rapid"
 
@@ -25,7 +26,7 @@ import (
 	"verif/vk"
 )
 
-const c07Rule = "all 16 combinations of ResetOnLogon/ResetOnLogout/ResetOnDisconnect/RefreshOnLogon x role x BeginString x store (memory,file), generated starting counters, then a state machine: traffic, peer logout, disconnect, reconnect with a faithful or a ResetSeqNumFlag-carrying counterparty, reset-time crossings, SequenceReset messages over NewSeqNo {<,=,>expected} x GapFillFlag {Y,N,absent} x MsgSeqNum {expected, above, below+PossDup}; non-trivial = history with a reconnect at non-initial counters, a reset negotiation, or a SequenceReset that changes or must not change the expected number; distinct = distinct history"
+const c07Rule = "all 16 combinations of ResetOnLogon/ResetOnLogout/ResetOnDisconnect/RefreshOnLogon x role x BeginString x store (memory,file), generated starting counters, then a state machine: traffic, peer logout, disconnect, reconnect with a faithful or a ResetSeqNumFlag-carrying counterparty, an application that leaves its Logon alone, adds ResetSeqNumFlag=N or (initiator) sets ResetSeqNumFlag=Y in ToAdmin, reset-time crossings, SequenceReset messages over NewSeqNo {<,=,>expected} x GapFillFlag {Y,N,absent} x MsgSeqNum {expected, above, below+PossDup}; non-trivial = history with a reconnect at non-initial counters, a reset negotiation, or a SequenceReset that changes or must not change the expected number; distinct = distinct history"
 
 func c07() *stats.Collector {
 	c := stats.Get("C07")
@@ -303,6 +304,30 @@ func c07Property(t *rapid.T) {
 		}
 		s.link, s.pendingReplays = nil, nil
 		peerResets := s.cfg.begin != "FIX.4.0" && rapid.IntRange(0, 3).Draw(t, "peer-sends-reset-flag") == 0
+		// the application may edit its outgoing Logon in ToAdmin: an explicit ResetSeqNumFlag=N
+		// (changes nothing), or - initiator - ResetSeqNumFlag=Y (asks for a reset: a negotiation)
+		appEdit := rapid.SampledFrom([]string{"", "", "", "N", "N", "Y"}).Draw(t, "application-edits-logon")
+		if appEdit == "Y" && (!s.cfg.initiator || s.cfg.begin == "FIX.4.0") {
+			appEdit = ""
+		}
+		s.r.EditAdmin = func(m *quickfix.Message) {
+			if mt, _ := m.Header.GetString(35); mt != "A" {
+				return
+			}
+			switch appEdit {
+			case "N":
+				if !m.Body.Has(141) {
+					m.Body.SetBool(141, false)
+				}
+			case "Y":
+				m.Body.SetBool(141, true)
+			}
+		}
+		defer func() { s.r.EditAdmin = nil }()
+		if appEdit != "" {
+			mon.feat["application-sets-ResetSeqNumFlag="+appEdit] = true
+			s.logf("the application will set 141=%s on its Logon", appEdit)
+		}
 		if !s.connect() {
 			t.Fatalf("harness: connect refused\n%s", s.history())
 		}
